@@ -448,6 +448,21 @@ func derivedFromGlobal(v ssa.Value, g *ssa.Global, depth int) bool {
 		return derivedFromGlobal(x.X, g, depth+1)
 	case *ssa.UnOp:
 		if x.Op == token.MUL {
+			// a load from a local cell yields whatever was stored into the cell; the cell may itself be reached through
+			// another cell that holds its address (pn := &node; (*pn).f = ...)
+			if cells := localCellsOf(x.X); len(cells) > 0 {
+				for _, a := range cells {
+					if a.Referrers() == nil {
+						continue
+					}
+					for _, r := range *a.Referrers() {
+						if st, ok := r.(*ssa.Store); ok && st.Addr == ssa.Value(a) && derivedFromGlobal(st.Val, g, depth+1) {
+							return true
+						}
+					}
+				}
+				return false
+			}
 			return derivedFromGlobal(x.X, g, depth+1)
 		}
 	case *ssa.Phi:
@@ -517,6 +532,22 @@ func checkGlobals(P *Program, prop string) []StructResult {
 								if bi, ok := c.Value.(*ssa.Builtin); ok && (bi.Name() == "delete" || bi.Name() == "copy") && len(c.Args) > 0 && derivedFromGlobal(c.Args[0], g, 0) {
 									bad = append(bad, fmt.Sprintf("%s deletes from / copies into memory reachable from it (%s)", fnKey(fn), posOf(fn, x.Pos())))
 								}
+								if callee := c.StaticCallee(); callee != nil {
+									for ai, a := range c.Args {
+										if writesThroughParam(P, callee, ai) && derivedFromGlobal(a, g, 0) {
+											bad = append(bad, fmt.Sprintf("%s passes memory reachable from it to %s, which writes through that parameter (%s)", fnKey(fn), fnKey(callee), posOf(fn, x.Pos())))
+										}
+									}
+								} else if c.IsInvoke() {
+									// a call through an interface: any method of that name in the two packages may be the callee
+									for _, cand := range methodsNamed(P, c.Method.Name(), len(c.Args)) {
+										for ai, a := range c.Args {
+											if writesThroughParam(P, cand, ai+1) && derivedFromGlobal(a, g, 0) {
+												bad = append(bad, fmt.Sprintf("%s passes memory reachable from it to %s (through an interface), which writes through that parameter (%s)", fnKey(fn), fnKey(cand), posOf(fn, x.Pos())))
+											}
+										}
+									}
+								}
 							}
 						}
 					}
@@ -556,8 +587,25 @@ func checkGlobals(P *Program, prop string) []StructResult {
 								// an earlier load, so two updates can be lost or repeated although each access is atomic
 								if ci, isCall := in.(ssa.CallInstruction); isCall {
 									if callee := ci.Common().StaticCallee(); callee != nil {
-										if n := callee.Name(); strings.HasPrefix(n, "Store") || strings.HasPrefix(n, "Swap") {
+										n := callee.Name()
+										if strings.HasPrefix(n, "Store") || strings.HasPrefix(n, "Swap") {
 											bad = append(bad, fmt.Sprintf("%s updates it with atomic.%s, which is not a read-modify-write (%s)", fnKey(fn), n, posOf(fn, in.Pos())))
+										}
+										if strings.HasPrefix(n, "Add") || strings.HasPrefix(n, "CompareAndSwap") {
+											// what the function goes on with must be the update's own result: a separate Load in the
+											// same function reads a value another goroutine may have moved on from
+											if v, ok := in.(ssa.Value); !ok || v.Referrers() == nil || len(nonDebugRefs(v)) == 0 {
+												bad = append(bad, fmt.Sprintf("%s discards the result of atomic.%s (%s)", fnKey(fn), n, posOf(fn, in.Pos())))
+											}
+											for _, b2 := range fn.Blocks {
+												for _, in2 := range b2.Instrs {
+													if c2, ok := in2.(ssa.CallInstruction); ok && in2 != in {
+														if ce := c2.Common().StaticCallee(); ce != nil && strings.HasPrefix(ce.Name(), "Load") && len(c2.Common().Args) > 0 && c2.Common().Args[0] == ssa.Value(g) {
+															bad = append(bad, fmt.Sprintf("%s reads it with atomic.%s next to its atomic.%s: the value read is not the update's result (%s)", fnKey(fn), ce.Name(), n, posOf(fn, in2.Pos())))
+														}
+													}
+												}
+											}
 										}
 									}
 								}
@@ -609,6 +657,18 @@ func lockDiscipline(fn *ssa.Function, g *ssa.Global) []string {
 				if derivedFromGlobal(x.Map, g, 0) {
 					accs = append(accs, acc{in, true})
 				}
+			case *ssa.Call:
+				if bi, ok := x.Call.Value.(*ssa.Builtin); ok && (bi.Name() == "delete" || bi.Name() == "clear" || bi.Name() == "copy") && len(x.Call.Args) > 0 && derivedFromGlobal(x.Call.Args[0], g, 0) {
+					accs = append(accs, acc{in, true})
+					continue
+				}
+				c := x.Common()
+				callee := c.StaticCallee()
+				if callee == nil || callee.Pkg == nil || callee.Pkg.Pkg.Path() != "sync" || len(c.Args) == 0 || !isMutexOfG(c.Args[0]) {
+					continue
+				}
+				locks = append(locks, lk{in, callee.Name(), false})
+				continue
 			case *ssa.UnOp:
 				if x.Op == token.MUL && derivedFromGlobal(x.X, g, 0) {
 					if fa, ok := x.X.(*ssa.FieldAddr); ok && fa.X == ssa.Value(g) && fa.Field == 0 {
@@ -648,6 +708,22 @@ func lockDiscipline(fn *ssa.Function, g *ssa.Global) []string {
 		return a.Block().Dominates(b.Block())
 	}
 	var bad []string
+	// every lock taken is released by a deferred unlock of the same kind (otherwise the next locker waits for ever)
+	for _, l := range locks {
+		if l.def || (l.kind != "Lock" && l.kind != "RLock") {
+			continue
+		}
+		want := map[string]string{"Lock": "Unlock", "RLock": "RUnlock"}[l.kind]
+		found := false
+		for _, u := range locks {
+			if u.def && u.kind == want {
+				found = true
+			}
+		}
+		if !found {
+			bad = append(bad, fmt.Sprintf("%s takes the lock with %s but has no deferred %s (%s)", fnKey(fn), l.kind, want, posOf(fn, l.in.Pos())))
+		}
+	}
 	// explicit (non-deferred) unlocks are not allowed in functions that touch the guarded state
 	for _, l := range locks {
 		if (l.kind == "Unlock" || l.kind == "RUnlock") && !l.def {
@@ -1443,4 +1519,155 @@ func hasCtxParam(fn *ssa.Function) bool {
 		}
 	}
 	return false
+}
+
+func nonDebugRefs(v ssa.Value) []ssa.Instruction {
+	var out []ssa.Instruction
+	if v.Referrers() == nil {
+		return nil
+	}
+	for _, r := range *v.Referrers() {
+		if _, ok := r.(*ssa.DebugRef); !ok {
+			out = append(out, r)
+		}
+	}
+	return out
+}
+
+// writesThroughParam: does fn (or a function it passes the parameter on to) store into memory reached through its
+// idx-th parameter (receiver included)? Summaries are computed once, to a fixpoint over the call graph.
+var writeSummaries map[*ssa.Function]map[int]bool
+
+func writesThroughParam(P *Program, fn *ssa.Function, idx int) bool {
+	if writeSummaries == nil {
+		writeSummaries = map[*ssa.Function]map[int]bool{}
+		fromParam := func(v ssa.Value, p *ssa.Parameter) bool {
+			for depth := 0; depth < 10 && v != nil; depth++ {
+				switch x := v.(type) {
+				case *ssa.Parameter:
+					return x == p
+				case *ssa.FieldAddr:
+					v = x.X
+				case *ssa.IndexAddr:
+					v = x.X
+				case *ssa.UnOp:
+					if x.Op != token.MUL {
+						return false
+					}
+					v = x.X
+				case *ssa.Slice:
+					v = x.X
+				case *ssa.ChangeType:
+					v = x.X
+				default:
+					return false
+				}
+			}
+			return false
+		}
+		// functions declared not to count as writers through their parameters (with the reason, in the contract file):
+		//   //@ global write-through-exempt <function> <why>
+		exempt := map[string]bool{}
+		for _, d := range P.Decls {
+			if d.Kind == "global" && d.Name == "write-through-exempt" {
+				if f := strings.Fields(d.Attr); len(f) > 0 {
+					exempt[f[0]] = true
+				}
+			}
+		}
+		for changed := true; changed; {
+			changed = false
+			for _, f := range P.allFuncs {
+				if exempt[fnKey(f)] || exempt[shortKey(fnKey(f))] {
+					continue
+				}
+				for i, p := range f.Params {
+					if writeSummaries[f][i] {
+						continue
+					}
+					w := false
+					for _, b := range f.Blocks {
+						for _, in := range b.Instrs {
+							switch x := in.(type) {
+							case *ssa.Store:
+								if fromParam(x.Addr, p) {
+									w = true
+								}
+							case *ssa.MapUpdate:
+								if fromParam(x.Map, p) {
+									w = true
+								}
+							case ssa.CallInstruction:
+								c := x.Common()
+								if bi, ok := c.Value.(*ssa.Builtin); ok && (bi.Name() == "delete" || bi.Name() == "clear" || bi.Name() == "copy") && len(c.Args) > 0 && fromParam(c.Args[0], p) {
+									w = true
+								}
+								if callee := c.StaticCallee(); callee != nil && len(callee.Blocks) > 0 {
+									for ai, a := range c.Args {
+										if writeSummaries[callee][ai] && fromParam(a, p) {
+											w = true
+										}
+									}
+								} else if c.IsInvoke() {
+									for _, cand := range methodsNamed(P, c.Method.Name(), len(c.Args)) {
+										for ai, a := range c.Args {
+											if writeSummaries[cand][ai+1] && fromParam(a, p) {
+												w = true
+											}
+										}
+									}
+								}
+							}
+						}
+					}
+					if w {
+						if writeSummaries[f] == nil {
+							writeSummaries[f] = map[int]bool{}
+						}
+						writeSummaries[f][i] = true
+						changed = true
+					}
+				}
+			}
+		}
+	}
+	return writeSummaries[fn][idx]
+}
+
+// localCellsOf: the local cells an address expression may denote: the Alloc itself, or the Allocs whose address was
+// stored into the cell the address is loaded from
+func localCellsOf(v ssa.Value) []*ssa.Alloc {
+	switch x := v.(type) {
+	case *ssa.Alloc:
+		return []*ssa.Alloc{x}
+	case *ssa.UnOp:
+		if x.Op != token.MUL {
+			return nil
+		}
+		outer, ok := x.X.(*ssa.Alloc)
+		if !ok || outer.Referrers() == nil {
+			return nil
+		}
+		var out []*ssa.Alloc
+		for _, r := range *outer.Referrers() {
+			if st, ok := r.(*ssa.Store); ok && st.Addr == ssa.Value(outer) {
+				if a, ok := st.Val.(*ssa.Alloc); ok {
+					out = append(out, a)
+				}
+			}
+		}
+		return out
+	}
+	return nil
+}
+
+// methodsNamed: the methods of the two packages with that name and that many parameters (receiver not counted)
+func methodsNamed(P *Program, name string, nargs int) []*ssa.Function {
+	var out []*ssa.Function
+	for _, f := range P.allFuncs {
+		if f.Signature.Recv() != nil && f.Name() == name && f.Signature.Params().Len() == nargs && len(f.Blocks) > 0 {
+			out = append(out, f)
+		}
+	}
+	return out
 }
